@@ -52,7 +52,7 @@ func kindOf(codec string) string {
 
 func payload(rd *hlib.Rand, kind, n int) []byte {
 	b := make([]byte, n)
-	switch kind % 5 {
+	switch kind % 6 {
 	case 0: // random
 		copy(b, rd.Bytes(n))
 	case 1: // text-like
@@ -80,9 +80,17 @@ func payload(rd *hlib.Rand, kind, n int) []byte {
 				b[i] = b[i-gap]
 			}
 		}
-	default: // low-entropy random
+	case 4: // low-entropy random
 		for i := range b {
 			b[i] = byte(rd.Intn(4)) * 17
+		}
+	default: // geometric byte values: many distinct symbols, very skewed -> long Huffman codes (redirects)
+		for i := range b {
+			v := 0
+			for v < 255 && rd.Intn(100) < 93 {
+				v++
+			}
+			b[i] = byte(v * 7)
 		}
 	}
 	return b
